@@ -28,7 +28,7 @@ IO_ATTRS = {"read_text", "read_bytes", "open", "stat", "exists", "is_file", "get
 STATE_SCOPE: dict[str, list[str]] = {
     # a cached scan/parse result no longer fails when the file went missing or became invalid, and keeps stale positions
     "C14": ["a816.parse.scanner:Scanner.scan", "a816.parse.parser:Parser.parse", "a816.parse.mzparser:*"],
-    "C16": ["a816.parse.scanner:Scanner.scan", "a816.parse.parser:Parser.parse"],
+    "C16": ["a816.parse.scanner:Scanner.scan", "a816.parse.parser:Parser.parse", "a816.parse.parser_states:parse_keyword"],
     "C17": ["a816.parse.scanner:Scanner.scan", "a816.parse.scanner:Scanner.*", "a816.parse.parser:Parser.parse"],
     "C03": ["a816.symbols:Resolver.__init__"],
     "C04": ["a816.symbols:Resolver.__init__"],
@@ -122,12 +122,30 @@ def _eq_attrs(repo: Repo, ci: ClassInfo) -> tuple[FunctionInfo | None, set[str],
 def _memo_findings(ctx: Ctx) -> list[Finding]:
     repo, rs = ctx.repo, get_resolver(ctx.repo)
     out: list[Finding] = []
+    # `cached = lru_cache(...)(f)` / `cached = functools.cache(f)` at module level memoises f under another name
+    wrapped: dict[str, str] = {}
+    for mi in repo.modules.values():
+        for name, st in mi.assigns_all:
+            v = getattr(st, "value", None)
+            inner = None
+            if isinstance(v, ast.Call) and len(v.args) == 1 and isinstance(v.args[0], ast.Name):
+                f0 = v.func
+                if isinstance(f0, ast.Call):
+                    f0 = f0.func
+                if (dotted(f0) or "").split(".")[-1] in MEMO_DECORATORS:
+                    inner = v.args[0].id
+            if inner and inner in mi.functions:
+                wrapped[mi.functions[inner].fq] = name
     for fn in repo.all_functions():
         decs = [_decorator_name(d) for d in fn.node.decorator_list]
         memo = [d for d in decs if d in MEMO_DECORATORS]
+        if not memo and fn.fq in wrapped:
+            memo = [f"lru_cache (as {wrapped[fn.fq]})"]
         if not memo:
             continue
         touched = {fn.fq} | _callers(rs, fn.fq) | {t.fq for t in rs.callees(fn.fq)}
+        if fn.fq in wrapped:  # called under the alias
+            touched |= {g_.fq for g_ in repo.all_functions() if g_.module is fn.module and any(isinstance(x, ast.Name) and x.id == wrapped[fn.fq] for x in ast.walk(g_.node))}
         construct = f"{fn.where}:@{memo[0]}"
         io = _does_io(repo, rs, fn.fq)
         if io:
